@@ -39,6 +39,9 @@ FAULTS = [
     _f("(fn(a) a + undefined_zz_q)(1)", "undefined_zz_q"), _f("length(1, 2, 3)", "length ("), _f("length(zz = 1)", "length ("),
     _f("return undefined_zz_q", "undefined_zz_q"), _f("def y_q = undefined_zz_q", "undefined_zz_q"), _f("[1, 2][0] = undefined_zz_q", "undefined_zz_q"),
     _f("[3, 2][5] = 1", "[ 5 ="),
+    # a break / continue with no loop around it (top level, or the body of a function called from another line)
+    _f("break", "break"), _f("continue", "continue"), _f("if TRUE then break", "break"), _f("if 1 == 1 then do 1; continue end", "continue"),
+    _f("do 1; break end", "break"), _f("do continue catch all 2 end", "continue"),
     _f(")", ")", "syntax"), _f("then", "then", "syntax"), _f("def 5 = 1", "5", "syntax"), _f("for in", "in", "syntax"), _f("if 1 2", "2", "syntax"),
     _f("f(... 5)", "... 5", "syntax"), _f("1 if", "if", "syntax"), _f("def x_q 1", "1", "syntax"), _f("'\\xZZ'", "'\\xZZ'", "syntax"),
     _f("0x", "0x", "syntax"), _f("//[//", "//[//", "syntax"), _f("def if = 1", "if", "syntax"), _f("checkerlang_q = 1", "checkerlang_q =", "syntax"),
@@ -146,7 +149,7 @@ def main(tier, seed, replay=None):
         ftext, accept, kind = rnd.choice(FAULTS)
         fault = fault_tokens(ftext)
         which = 0
-        inside = rnd.random() < 0.3 and kind == "runtime"
+        inside = rnd.random() < (0.3 if fault[-1][0] not in ("break", "continue") and "break" not in ftext and "continue" not in ftext else 0.7) and kind == "runtime"
         b = rnd.choice(statement_boundaries(toks))
         if inside:
             planted = [("def", "keyword"), ("pf_q", "identifier"), ("(", "interpunction"), (")", "interpunction"), ("do", "keyword")] + fault + \
